@@ -27,6 +27,17 @@ impl Interpreter {
         }
     }
 
+    /// True when some conditional in the elements (at any depth) holds a further OP_ELSE in its else branch
+    fn has_repeated_else(bits: &[ScriptBit]) -> bool {
+        bits.iter().any(|bit| match bit {
+            ScriptBit::If { pass, fail, .. } => {
+                let in_else = fail.as_ref().map_or(false, |f| f.iter().any(|b| matches!(b, ScriptBit::OpCode(OpCodes::OP_ELSE))) || Interpreter::has_repeated_else(f));
+                in_else || Interpreter::has_repeated_else(pass)
+            }
+            _ => false,
+        })
+    }
+
     pub(crate) fn match_script_bit(&mut self, bit: &ScriptBit) -> Result<State, InterpreterError> {
         Ok(match bit {
             ScriptBit::OpCode(o) => match Interpreter::match_opcode(self.script_position(self.script_index), o, &mut self.state.clone(), self.tx_script.clone()) {
@@ -54,6 +65,10 @@ impl Interpreter {
                 self.state.clone()
             }
             ScriptBit::If { code, pass, fail } => {
+                // A conditional has at most one OP_ELSE, whether or not the branch holding the second one would run
+                if Interpreter::has_repeated_else(std::slice::from_ref(bit)) {
+                    return Err(InterpreterError::InvalidStackOperation("unbalanced conditional"));
+                }
                 // Pop from a copy so that a failing step leaves the interpreter state untouched
                 let mut stack = self.state.stack.clone();
                 let predicate = stack.pop_bool()?;
